@@ -200,6 +200,9 @@ def EvOk1 (cls : CipherClass) (macLen : Nat) : DirEv → Prop
   | .hs13 ms _ => ∀ m ∈ ms, MsgOk m
   | _ => True
 
+instance (cls : CipherClass) (macLen : Nat) (e : DirEv) : Decidable (EvOk1 cls macLen e) := by
+  cases e <;> unfold EvOk1 <;> infer_instance
+
 theorem record_typ (typ : UInt8) (ver body : Bytes) (car : List Nat) :
     (⟨record typ ver body, car⟩ : Session.Rec).typ = some typ := by
   simp [Session.Rec.typ, record]
